@@ -36,3 +36,160 @@ Example C11_example :
   link_iter {| mw := [1]; mR2 := 4 |} 1 30 (pred_drift [100] [0; 1; 3]) (drift_frames [100] [0; 1; 3] 0 [[[0]; [10]]; [[11]]; [[1]; [12]]])
   = Ok [[0; 1]; [1]; [0; 1]]%nat.
 Proof. vm_compute. reflexivity. Qed.
+
+(* ===================================================================================================
+   Route T.  tools/py2coq_predict.py translates the CURRENT source text of trackpy/predict.py (the
+   predictor decorator, null_predict, NullPredict, _RecentVelocityPredict.__init__ / state,
+   DriftPredict.predict), of HashBase / HashKDTree in trackpy/linking/subnet.py (set_predictor, predict,
+   coords, coords_predict, rebuild, tree, coords_mapped, ...), of points_to_arr / points_from_arr and of
+   Linker.update_hash into Gen/predict.v (vocabulary: Model/PyPredict.v).  The theorems below are about
+   those generated functions (Proofs/PredictGen.v); definitions used in the statements: Model/Predict2.v.
+   =================================================================================================== *)
+From Coq Require Import String.
+From TP Require Import Model.PyPredict Gen.predict Model.Predict2 Proofs.PredictGen.
+
+(* A PREDICTOR ONLY MOVES THE SEARCH ORIGIN, as a theorem about the generated Linker / HashBase code.
+   Let the Linker object L (its self.hash h, memory set and heap of Point objects) stand for the model
+   state st: the points of h followed by the memory set (iterated in the order ord) are the live sources,
+   attribute by attribute.  Let pred be what L's predictor computes particle by particle (or the stored
+   position if there is none).  Run the generated Linker.update_hash on the coordinates ds of frame
+   t = tag tags (now st) and then make the reads Subnets.compute makes (dest_hash.coords_mapped,
+   source_hash.tree).  Then, for every movie state, predictor, memory content and iteration order:
+     - the candidate links of the model's step are EXACTLY those computed from the data of the source
+       tree (the predicted positions of all live sources, remembered ones included) and the destination
+       coordinates, and the destination coordinates are the observed ds: the predictor enters the
+       candidate search through the source tree and nowhere else;
+     - the source Point objects keep their stored (observed) positions, frame numbers and track ids:
+       what apply_links later copies into labels and stored positions is not the prediction;
+     - the new Points carry the observed coordinates ds and the frame number t. *)
+Theorem C11_generated_predictor_only_moves_search_origin :
+  forall ord tags L h st ds pred m max_size,
+  represents ord tags L h st -> l_to_eucl L = None ->
+  match l_predictor L with
+  | None => forall s, pred (now st) s = s_pos s
+  | Some P => exists f, elementwise P f /\
+              forall p s, same_obs tags p s -> f (Some (tag tags (now st))) p = pred (now st) s
+  end ->
+  exists lv, gen_level ord L ds (tag tags (now st)) = POk lv
+    /\ step_links m max_size pred st ds
+       = solve_groups max_size (components (items_of_coords m (lv_src_coords lv) (lv_dst_coords lv)))
+    /\ lv_dst_coords lv = ds
+    /\ Forall2 (same_obs tags) (derefs (l_heap (lv_linker lv)) (h_points (lv_src_hash lv))) (live st)
+    /\ derefs (l_heap (lv_linker lv)) (h_points (lv_dst_hash lv)) = map (new_point (tag tags (now st))) ds.
+Proof. exact gen_search_origin. Qed.
+Print Assumptions C11_generated_predictor_only_moves_search_origin.
+
+(* the same with any coordinate transformation to_eucl (anisotropic search ranges): source tree =
+   to_eucl(predicted), destination = to_eucl(observed); the new self.hash has no predictor *)
+Theorem C11_generated_level_coordinates :
+  forall ord tags L h st ds pred,
+  represents ord tags L h st -> eucl_of (l_to_eucl L) [] = [] ->
+  match l_predictor L with
+  | None => forall s, pred (now st) s = s_pos s
+  | Some P => exists f, elementwise P f /\
+              forall p s, same_obs tags p s -> f (Some (tag tags (now st))) p = pred (now st) s
+  end ->
+  exists lv, gen_level ord L ds (tag tags (now st)) = POk lv
+    /\ lv_src_coords lv = eucl_of (l_to_eucl L) (map (pred (now st)) (live st))
+    /\ lv_dst_coords lv = eucl_of (l_to_eucl L) ds
+    /\ h_points (lv_src_hash lv) = source_pids ord L h
+    /\ Forall2 (same_obs tags) (derefs (l_heap (lv_linker lv)) (h_points (lv_src_hash lv))) (live st)
+    /\ derefs (l_heap (lv_linker lv)) (h_points (lv_dst_hash lv)) = map (new_point (tag tags (now st))) ds
+    /\ exists dh0, l_hash (lv_linker lv) = Some dh0 /\ h_predictor dh0 = None
+         /\ h_to_eucl dh0 = eucl_of (l_to_eucl L) /\ h_points dh0 = h_points (lv_dst_hash lv).
+Proof. exact gen_level_spec. Qed.
+Print Assumptions C11_generated_level_coordinates.
+
+(* the generated @predictor decorator applies the single-particle function to every particle, at the same t1 *)
+Theorem C11_generated_predictor_decorator : forall f t1 particles,
+  py_predictor f t1 particles = POk (map (f t1) particles).
+Proof. exact gen_predictor_elementwise. Qed.
+Print Assumptions C11_generated_predictor_decorator.
+
+(* C11_drift_compensated for the generated code: any single-particle function that extrapolates by
+   exactly v per frame, vectorised by the generated @predictor ... *)
+Theorem C11_generated_drift_compensated : forall m mem max_size v f tags frames,
+  (forall t1 p, f (Some t1) p = shift (scale (t1 - p_t p) v) (p_pos p)) ->
+  link_iter m mem max_size (pred_of_vpred (py_predictor f) tags) (drift_frames v tags 0 frames)
+  = link_iter m mem max_size no_pred frames.
+Proof. exact gen_drift_compensated. Qed.
+Print Assumptions C11_generated_drift_compensated.
+
+(* ... and the library's own DriftPredict.predict with self.vel = v (movies of the dimension of v) *)
+Theorem C11_generated_DriftPredict_compensated : forall m mem max_size v self tags frames,
+  o_vel self = Some v -> Forall (Forall (fun p => List.length p = List.length v)) frames ->
+  link_iter m mem max_size (pred_of_vpred (py_DriftPredict_predict self) tags) (drift_frames v tags 0 frames)
+  = link_iter m mem max_size no_pred frames.
+Proof. exact gen_DriftPredict_compensated. Qed.
+Print Assumptions C11_generated_DriftPredict_compensated.
+
+(* DriftPredict.predict itself: positions + vel * (t1 - t), particle by particle *)
+Theorem C11_generated_DriftPredict_predict : forall self v t1 ps,
+  o_vel self = Some v -> ps <> [] -> Forall (fun p => List.length (p_pos p) = List.length v) ps ->
+  py_DriftPredict_predict self (Some t1) ps = POk (map (fun p => shift (scale (t1 - p_t p) v) (p_pos p)) ps).
+Proof. exact gen_DriftPredict_predict_exact. Qed.
+Print Assumptions C11_generated_DriftPredict_predict.
+
+(* C11_null_predictor for the generated code: null_predict and NullPredict.predict are plain linking *)
+Theorem C11_generated_null_predictor : forall m mem max_size self tags frames,
+  link_iter m mem max_size (pred_of_vpred py_null_predict tags) frames = link_iter m mem max_size no_pred frames
+  /\ link_iter m mem max_size (pred_of_vpred (py_NullPredict_predict self) tags) frames = link_iter m mem max_size no_pred frames.
+Proof. exact gen_null_predictor_both. Qed.
+Print Assumptions C11_generated_null_predictor.
+
+(* NullPredict.wrap / link_df_iter, for all arguments (error cases included): the frames reach the linking
+   function unchanged and in order, kw['predictor'] = "every particle stays where it was seen", observe
+   changes nothing, every linked frame is yielded ([wrap_spec], Model/Predict2.v) *)
+Theorem C11_generated_NullPredict_wrap : forall self lf args kw,
+  py_NullPredict_wrap NullPredict_cls self lf args kw = wrap_spec self lf args kw
+  /\ py_NullPredict_link_df_iter NullPredict_cls lf self args kw = wrap_spec self lf args kw.
+Proof. exact gen_wrap_both. Qed.
+Print Assumptions C11_generated_NullPredict_wrap.
+
+Theorem C11_generated_NullPredict_wrap_single : forall self lf args kw,
+  py_NullPredict_wrap_single NullPredict_cls self lf args kw = wrap_single_spec self lf args kw
+  /\ py_NullPredict_link_df NullPredict_cls lf self args kw = wrap_single_spec self lf args kw.
+Proof. exact gen_wrap_single_both. Qed.
+Print Assumptions C11_generated_NullPredict_wrap_single.
+
+(* NullPredict().link_df_iter with the model's link step as linking.link_df_iter: the yielded frames carry,
+   label for label, the result of plain linking *)
+Theorem C11_generated_NullPredict_link_df_iter_is_plain : forall m mem max_size tags self f0 fs rest kw pc labs,
+  wrap_pos_columns self kw f0 = POk pc ->
+  link_iter m mem max_size no_pred (map frame_pts (f0 :: fs)) = Ok labs ->
+  py_NullPredict_link_df_iter NullPredict_cls (lf_model m mem max_size tags) self (AFrames (f0 :: fs) :: rest) kw
+  = POk (wrap_self self kw pc, label_frames (f0 :: fs) labs).
+Proof. exact gen_NullPredict_link_df_iter_plain. Qed.
+Print Assumptions C11_generated_NullPredict_link_df_iter_is_plain.
+
+(* C11_any_predictor_valid for the generated predictors is an instance of the theorem above (it holds
+   for ANY pred, hence for pred_of_vpred P tags with P generated or not). *)
+Theorem C11_generated_any_predictor_valid : forall m mem max_size (P : vpred) tags frames out,
+  metric_ok m -> link_iter m mem max_size (pred_of_vpred P tags) frames = Ok out ->
+  Forall2 (fun ds labs => List.length labs = List.length ds /\ NoDup labs) frames out.
+Proof. exact (fun m mem max_size P tags => link_iter_valid m mem max_size (pred_of_vpred P tags)). Qed.
+Print Assumptions C11_generated_any_predictor_valid.
+
+(* non-vacuity: a Linker object with two points in its hash, one remembered point and the generated
+   @predictor around an exact-drift function: the generated code puts the PREDICTED positions of all three
+   sources into the source tree, hands out the OBSERVED destination coordinates, and leaves the stored
+   positions alone *)
+Definition C11_ex_heap : heap :=
+  [ {| p_t := 5; p_pos := [0]; p_track := Some 0%nat; p_fc := [] |};
+    {| p_t := 5; p_pos := [10]; p_track := Some 1%nat; p_fc := [] |};
+    {| p_t := 3; p_pos := [20]; p_track := Some 2%nat; p_fc := [(Some 0%nat, 1)] |} ].
+Definition C11_ex_linker : linker :=
+  {| l_ndim := Some 1%nat;
+     l_hash := Some {| h_ndim := Some 1%nat; h_points := [0; 1]%nat; h_t := None; h_predictor := None; h_clean := false;
+                       h_kdtree := None; h_to_eucl := fun x => x |};
+     l_mem_set := [2%nat];
+     l_predictor := Some (py_predictor (fun t1 p => match t1 with Some t => shift (scale (t - p_t p) [100]) (p_pos p) | None => p_pos p end));
+     l_to_eucl := None; l_dist_func := None; l_heap := C11_ex_heap |}.
+Example C11_generated_example :
+  match gen_level (fun s => s) C11_ex_linker [[101]; [299]] 6 with
+  | POk lv => lv_src_coords lv = [[100]; [110]; [320]] /\ lv_dst_coords lv = [[101]; [299]]
+              /\ map p_pos (derefs (l_heap (lv_linker lv)) (h_points (lv_src_hash lv))) = [[0]; [10]; [20]]
+              /\ map p_pos (derefs (l_heap (lv_linker lv)) (h_points (lv_dst_hash lv))) = [[101]; [299]]
+  | PRaises _ => False
+  end.
+Proof. vm_compute. repeat split. Qed.
